@@ -250,7 +250,7 @@ pub fn run(ctx: &Ctx, rep: &mut Report) {
         check(&c, st)
     }, |i| serde_json::to_value(case_of(i)).expect("ser"));
     // every bit of the draw influences the result
-    let bases = u64::from(ctx.n(4, 64));
+    let bases = u64::from(ctx.n(8, 64));
     let nb = 3 * bases * 3 * 256;
     let bit_case = |i: u64| -> BitCase { BitCase { set: (i / (bases * 3 * 256)) as u8, base: (i / (3 * 256)) % bases, op: ((i / 256) % 3) as u8, bit: (i % 256) as u16 } };
     run_sweep(rep, "bit_influence", nb, false, |i, st| {
